@@ -262,7 +262,7 @@ def run(tier, seed):
                 b = getattr(laue, fn)(cell, smin, smax, **sgk)
                 D.count[fn] += 1
                 a, b = np.asarray(a, float), np.asarray(b, float)
-                if a.shape != b.shape or (a.size and np.abs(a - b).max() > 1e-12):
+                if a.shape != b.shape or (a.size and not (np.abs(a - b).max() <= 1e-12)):
                     D.bad.append("%s: tools and laue return different reflection lists %s" % (fn, note))
         kw = dict(crystal_system=t["crystal_system"], Laue_class=t["Laue"], cell_choice=t["cell_choice"], output_stl=True)
         D.run("genhkl_base", [cell, t["syscond"], smin, smax], kwargs=kw, note=note)
